@@ -221,7 +221,7 @@ func VfC14_PrintTwice() {
 	target := f.NewBlock("")
 	entry.NewBr(target)
 	target.NewRet(nil)
-	where := vfChoice("where", 3)
+	where := vfChoice("where", 4)
 	switch where {
 	case 0: // global initialiser (printed before any function)
 		m.NewGlobalDef(hLetter("g"), constant.NewBlockAddress(f, target))
@@ -231,7 +231,11 @@ func VfC14_PrintTwice() {
 		gb.NewIndirectBr(constant.NewBlockAddress(f, target), target)
 		m.Funcs = append([]*Func{g}, m.Funcs...)
 		g.Parent = m
-	default: // alias-free control: no early reference
+	case 3: // a constant that captured the type of a global before the global's address space was assigned
+		g := m.NewGlobalDef(hLetter("g"), constant.NewInt(types.I32, 0))
+		m.NewGlobalDef("table", constant.NewArray(nil, g))
+		g.AddrSpace = 1
+	default: // control: no early reference
 	}
 	vfReach("C14.print-twice")
 	first := m.String()
@@ -254,6 +258,13 @@ func VfC14_PrintTwice() {
 		gb.NewIndirectBr(constant.NewBlockAddress(f2, t2), t2)
 		m2.Funcs = append([]*Func{g}, m2.Funcs...)
 		g.Parent = m2
+	case 3:
+		g := m2.NewGlobalDef(m.Globals[0].Name(), constant.NewInt(types.I32, 0))
+		m2.NewGlobalDef("table", constant.NewArray(nil, g))
+		g.AddrSpace = 1
+		// the copy is queried before it is printed (observers must not matter)
+		_ = g.Type()
+		_ = g.String()
 	}
 	vfAssert("C14.print-twice.first-print-of-a-copy", m2.String() == second)
 }
